@@ -139,10 +139,51 @@ func loadKnown(path string) (*KnownFile, error) {
 	return kf, nil
 }
 
+// knownProgFns: the functions of the analysed program (set by main): a known finding whose
+// function is gone may have been renamed.
+var knownProgFns map[string]bool
+var knownUsed = map[*KnownEntry]bool{}
+
+func splitFindingKey(key string) (recv, fn, site string) {
+	i := strings.LastIndex(key, ":")
+	if i < 0 {
+		return "", key, ""
+	}
+	fn, site = key[:i], key[i+1:]
+	if strings.HasPrefix(fn, "(") {
+		if j := strings.Index(fn, ")"); j > 0 {
+			recv = fn[:j+1]
+		}
+	}
+	return
+}
+
 func (kf *KnownFile) match(prop string, o Obligation) *KnownEntry {
 	for i := range kf.Known {
 		k := &kf.Known[i]
 		if k.Property == prop && k.Rule == o.Rule && k.Key == o.Key {
+			knownUsed[k] = true
+			return k
+		}
+	}
+	// the function of a listed finding was renamed: same rule, same receiver type, same kind
+	// and ordinal of the site, and the listed function no longer exists in the program. Each
+	// entry covers at most one site, so a second violation of the same kind is still reported.
+	if knownProgFns == nil {
+		return nil
+	}
+	recv, _, site := splitFindingKey(o.Key)
+	if recv == "" {
+		return nil
+	}
+	for i := range kf.Known {
+		k := &kf.Known[i]
+		if k.Property != prop || k.Rule != o.Rule || knownUsed[k] {
+			continue
+		}
+		krecv, kfn, ksite := splitFindingKey(k.Key)
+		if krecv == recv && ksite == site && !knownProgFns[kfn] {
+			knownUsed[k] = true
 			return k
 		}
 	}
